@@ -169,6 +169,7 @@ pub fn big_replica_strategy() -> impl Strategy<Value = Vec<SOp>> {
             2 => neighbour,
             2 => Just(vec![SOp::RReopen]),
             2 => any::<u16>().prop_map(|x| vec![SOp::RClear(x)]),
+            2 => (prop_oneof![Just(0u16), any::<u16>()], prop_oneof![Just(0xffffu16), any::<u16>(), 0u16..64]).prop_map(|(a, b)| vec![SOp::RClearRange(a, b)]),
             1 => small_blk_strategy().prop_map(|b| vec![SOp::W(Op::Append(b))]),
         ];
         prop::collection::vec(step, 4..16).prop_map(move |v| {
@@ -185,6 +186,7 @@ pub fn small_replica_strategy() -> impl Strategy<Value = Vec<SOp>> {
     let step = prop_oneof![
         10 => sop_strategy(),
         3 => any::<u16>().prop_map(SOp::RClear),
+        2 => (any::<u16>(), prop_oneof![0u16..2000, any::<u16>()]).prop_map(|(a, b)| SOp::RClearRange(a, b)),
     ];
     prop::collection::vec(step, 3..40)
 }
